@@ -38,7 +38,16 @@ def cases(tier):
         p = gen.params(r)
         p['alpha'] = {'default': r.choice(gen.ALPHAS), 'map': amap}
         policy = r.choice(['dedup', 'keep']) if gen.has_dup(es) else r.choice(['error', 'dedup', 'keep'])
-        out.append((dict(p, events=es, policy=policy, stream='per_cue_alpha'), ['dict_ndl']))
+        c = dict(p, events=es, policy=policy, stream='per_cue_alpha')
+        if i % 3 == 1:
+            # a plain dict naming every cue of the events instead of a defaultdict
+            p['alpha'] = {'default': p['alpha']['default'], 'container': 'dict',
+                          'map': {cu: amap.get(cu, p['alpha']['default']) for cs, _ in es for cu in cs}}
+            c['alpha'] = p['alpha']
+        if i % 3 == 2:
+            c['form_dict'] = 'path'
+            c['events'] = gen.file_norm(es)
+        out.append((c, ['dict_ndl']))
     # single-cue probes: one event, one cue, one outcome + one absent outcome row
     for i in range(6 if tier == 'quick' else 30):
         es = [[['a'], ['x']], [['a'], ['y']]][: r.randint(1, 2)]
@@ -52,6 +61,21 @@ def cases(tier):
         c = dict(gen.params(r), events=es, policy=r.choice(['error', 'dedup']), stream='wide', n_jobs=r.choice([2, 4]),
                  per_job=r.choice([7, 100, 1000]), per_file=r.choice([2, 10000000]), _timeout=300)
         out.append((c, LEARNERS))
+    # one vocabulary for cues and outcomes (a name is both), all learners
+    for i in range(8 if tier == 'quick' else 80):
+        dup = r.choice([0.0, 0.0, 0.4])
+        es = gen.overlap_events(r, r.randint(1, 9), dup=dup)
+        policy = r.choice(['dedup', 'keep']) if gen.has_dup(es) else r.choice(['error', 'dedup', 'keep'])
+        out.append((dict(gen.params(r), events=es, policy=policy, stream='overlap_vocabulary', n_jobs=r.choice([1, 2, 3]),
+                         per_job=r.choice([1, 2, 10]), per_file=r.choice([2, 3, 10000000])), LEARNERS))
+    # wide on both sides in one event, at any position
+    # (a million cells per case: one case and the two buffer-owning learners in the quick tier)
+    for k in range(1 if tier == 'quick' else 6):
+        nc, no = (1400, 1100) if tier == 'quick' else (r.choice([1025, 1500]), r.choice([1025, 1100]))
+        es = gen.wide_joint(r, nc, no, n_events=3, pos=r.choice([0, 1, 2]))
+        out.append((dict(gen.params(r), events=es, policy=r.choice(['error', 'dedup', 'keep']), stream='wide_joint',
+                         n_jobs=r.choice([2, 4]), per_job=r.choice([7, 100, 1000]), per_file=r.choice([2, 10000000]),
+                         _timeout=300), LEARNERS[1:] if tier == 'quick' else LEARNERS))
     # outside the property's quantifier (it starts at one event), run to keep the model honest where
     # the learners differ: an event file with ZERO events (model: ndlCall, theorems ndl_call_empty_*)
     for init in (False, True):
